@@ -208,7 +208,10 @@ claim("C20",
       "Theorems (Coq): with the advances and kerning pairs dumped from the bundled fonts, for every font and every string "
       "the model width is >= 0 and never decreases when a character is appended (unbounded over strings; finite facts on "
       "the dumped tables); empty string = 0; unit conversions exact in rational arithmetic; names and numbers resolve to "
-      "the same font, unsupported fonts/units refused; the monospaced font has one advance and no kerning. Against the "
+      "the same font, unsupported fonts/units refused; the monospaced font has one advance and no kerning; the same non-negativity, empty-string and "
+      "append-monotonicity facts are lifted to the whole get_string_width function (font resolution, scaling, unit "
+      "conversion; any size >= 0, dpi > 0) and the model's scaling is proved exactly linear in the size (C20_api_*, "
+      "C20_model_linear). Against the "
       "implementation: the model's width must equal get_string_width exactly (1/64 px) at the reference size; units, "
       "name/number, append-monotonicity, 1% scaling across sizes 4..48, mono = count x advance and rejections are checked "
       "on random strings.",
